@@ -146,13 +146,16 @@ func copyLocID(locID []byte) ([2]byte, error) {
 // * the starting RangePoint is the first IP of the Location, and we immediately know the LocID for this RangePoint
 // * the next RangePoint is the first IP _after_ the end of this Location, so it is marked as rangePointEnd, and the LocID is to be determined
 func (r *Rearranger) AddLocation(ipnet *net.IPNet, locID []byte) error {
-	maskLen, _ := ipnet.Mask.Size()
+	maskLen, maskBits := ipnet.Mask.Size()
 	copiedLocID, err := copyLocID(locID)
 	if err != nil {
 		return err
 	}
 
-	if firstIPv6.EqualToNetIP(ipnet.IP.To16()) {
+	// only a zero-length prefix is a default route: ::/8 or 0.0.0.0/7 also start
+	// at the first address of their family but do not span it
+	isDefaultIPv4Len := maskLen == 0 || (maskBits == 8*net.IPv6len && maskLen == 8*(net.IPv6len-net.IPv4len))
+	if maskLen == 0 && firstIPv6.EqualToNetIP(ipnet.IP.To16()) {
 		// it is ::/0
 		r.hasDefaultIPv6Range = true
 		defaultIPv6Location := rangeLocation{
@@ -170,7 +173,7 @@ func (r *Rearranger) AddLocation(ipnet *net.IPNet, locID []byte) error {
 			pointKind:  pointKindStart,
 			location:   defaultIPv6Location,
 		})
-	} else if firstIPv4.EqualToNetIP(ipnet.IP.To16()) {
+	} else if isDefaultIPv4Len && firstIPv4.EqualToNetIP(ipnet.IP.To16()) {
 		// it is 0.0.0.0/0
 		r.hasDefaultIPv4Range = true
 		r.points = append(r.points, &RangePoint{
